@@ -7,10 +7,11 @@ import SymmModel.Driver.ReshapeH
 import SymmModel.Driver.CacheH
 import SymmModel.Driver.HeapH
 import SymmModel.Driver.Heap2H
+import SymmModel.Driver.DTypeFlowH
 open Lean SymmModel.Driver
 
 /-- plug-in handlers of the self-contained property models are tried in order -/
-def handlers : List (String → Json → Option (D Json)) := [handleCore, handleSym, handleHam, handleTrunc, handleFermiOps, handleReshape, handleCache, handleHeap, handleHeap2]
+def handlers : List (String → Json → Option (D Json)) := [handleCore, handleSym, handleHam, handleTrunc, handleFermiOps, handleReshape, handleCache, handleHeap, handleHeap2, handleDFlow]
 
 def handleLine (line : String) : Json :=
   match Json.parse line with
